@@ -103,17 +103,31 @@ impl ContinuousOutput {
         }
         
         let tol = 1e-12;
-        
-        // Strict interpolation - only return segment if t is within it
+
+        // A time inside a recorded step is answered by that step
         for seg in &self.segs {
             let left = seg.xold.min(seg.xold + seg.h);
             let right = seg.xold.max(seg.xold + seg.h);
-            if t >= left - tol && t <= right + tol {
+            if t >= left && t <= right {
                 return Some(seg);
             }
         }
-        
-        None
+
+        // Otherwise (just outside the covered range, or in a rounding gap between two steps)
+        // the nearest step within the tolerance answers
+        let mut best = None;
+        let mut best_dist = tol;
+        for seg in &self.segs {
+            let left = seg.xold.min(seg.xold + seg.h);
+            let right = seg.xold.max(seg.xold + seg.h);
+            let dist = if t < left { left - t } else { t - right };
+            if dist <= best_dist {
+                best = Some(seg);
+                best_dist = dist;
+            }
+        }
+
+        best
     }
     
     fn find_segment_extrapolate(&self, t: Float) -> Option<&DenseSegment> {
@@ -121,17 +135,11 @@ impl ContinuousOutput {
             return None;
         }
         
-        let tol = 1e-12;
-        
-        // First check if t is within any segment (interpolation)
-        for seg in &self.segs {
-            let left = seg.xold.min(seg.xold + seg.h);
-            let right = seg.xold.max(seg.xold + seg.h);
-            if t >= left - tol && t <= right + tol {
-                return Some(seg);
-            }
+        // First check if t is within (or within the tolerance of) any segment (interpolation)
+        if let Some(seg) = self.find_segment(t) {
+            return Some(seg);
         }
-        
+
         // If not within any segment, allow extrapolation using the closest segment
         // This matches SciPy's behavior
         let first = self.segs.first().unwrap();
